@@ -77,7 +77,7 @@ ALIAS_CPP = {
     "plus": ("X.plus(t, Ka, Kb)", 2, False), "op+": ("X + t", 0, False), "op+=": ("(XM += t)", 0, True),
     "minus": ("X.minus(Y, Ka, Kb)", 2, False), "op-": ("X - Y", 0, False),
     "op*": ("X * Y", 0, False), "op*=": ("(XM *= Y)", 0, True),
-    "t+X": ("t + Xo", 0, False),
+    "t+X": ("t + X", 0, False),
     "lift": ("X.lift(Ka)", 1, False), "retract": ("t.retract(Ka)", 1, False),
     "f_inverse": ("manif::inverse(X, Ka)", 1, False), "f_rplus": ("manif::rplus(X, t, Ka, Kb)", 2, False),
     "f_lplus": ("manif::lplus(X, t, Ka, Kb)", 2, False), "f_plus": ("manif::plus(X, t, Ka, Kb)", 2, False),
@@ -86,8 +86,8 @@ ALIAS_CPP = {
     "f_exp": ("manif::exp(t, Ka)", 1, False), "f_compose": ("manif::compose(X, Y, Ka, Kb)", 2, False),
     "f_between": ("manif::between(X, Y, Ka, Kb)", 2, False), "f_act": ("manif::act(X, v, Km, Kv)", 2, False),
     # tangent-side forms: optional outputs in swapped order
-    "t.plus": ("t.plus(Xo, Kb, Ka)", 2, False), "t.lplus": ("t.lplus(Xo, Kb, Ka)", 2, False),
-    "t.rplus": ("t.rplus(Xo, Kb, Ka)", 2, False),
+    "t.plus": ("t.plus(X, Kb, Ka)", 2, False), "t.lplus": ("t.lplus(X, Kb, Ka)", 2, False),
+    "t.rplus": ("t.rplus(X, Kb, Ka)", 2, False),
 }
 
 
